@@ -211,6 +211,10 @@ func (ex *Exec) gcmSeal(key []*Term, dst, nonce, pt *SliceV) Value {
 	for j := 0; j < 16; j++ {
 		e.tag = append(e.tag, tagL.read(BV(64, uint64(j))))
 	}
+	// ideal MAC: tags of different seal operations never coincide
+	for _, prev := range ex.sealTable() {
+		ex.assume(Not(eqAll(prev.tag, e.tag)))
+	}
 	if head.Obj.RO {
 		panic(unsupported("Seal into read-only memory"))
 	}
